@@ -362,9 +362,26 @@ func extractSites(pkgs []*packages.Package) []byte {
 								}
 							} else if len(s.Rhs) == 1 {
 								pr := env.classify(s.Rhs[0])
-								// multi-value call: first result carries the bytes, the rest are err/len
+								// multi-value call: every result that can carry bytes (slice, pointer, interface, map) has the call's
+								// provenance (pem.Decode's second result is a slice of its argument); err / len / bool results are fresh
 								for i := range s.Lhs {
-									if i == 0 {
+									carries := i == 0
+									if t, ok := p.TypesInfo.Types[s.Lhs[i]]; ok && t.Type != nil {
+										switch t.Type.Underlying().(type) {
+										case *types.Slice, *types.Pointer, *types.Map:
+											carries = true
+										case *types.Interface:
+											carries = i == 0
+										}
+									} else if id, ok := s.Lhs[i].(*ast.Ident); ok {
+										if obj := p.TypesInfo.Defs[id]; obj != nil && obj.Type() != nil {
+											switch obj.Type().Underlying().(type) {
+											case *types.Slice, *types.Pointer, *types.Map:
+												carries = true
+											}
+										}
+									}
+									if carries {
 										env.assign(s.Lhs[i], pr)
 									} else {
 										env.assign(s.Lhs[i], pFresh)
